@@ -447,7 +447,7 @@ func (c *Ctx) origins(v ssa.Value, depth int, os *originSet) {
 				return
 			}
 			if _, _, base, ok := fieldOfAddr(x.X); ok {
-				if sv := forwardedStore(x, base); sv != nil {
+				if sv := forwardedStore(x, base); sv != nil && sv != v {
 					c.origins(sv, depth, os)
 					return
 				}
@@ -486,34 +486,78 @@ func (c *Ctx) origins(v ssa.Value, depth int, os *originSet) {
 	os.leaves = append(os.leaves, v)
 }
 
-// forwardedStore: for a load of base.F, if the enclosing function contains
-// exactly one store to the same field of the same base value and it dominates
-// the load, return the stored value.
-func forwardedStore(load *ssa.UnOp, base ssa.Value) ssa.Value {
-	fa := load.X.(*ssa.FieldAddr)
+// accessPath renders an address as root value + selector path, looking through
+// reloads of intermediate pointers: &pkt.Record.Header.SequenceNumber ->
+// (param pkt, ".Record*.Header.SequenceNumber").
+func accessPath(addr ssa.Value) (root ssa.Value, path string) {
+	switch x := addr.(type) {
+	case *ssa.FieldAddr:
+		st, _ := derefType(x.X.Type()).Underlying().(*types.Struct)
+		r, p := accessPath(x.X)
+		name := "?"
+		if st != nil {
+			name = st.Field(x.Field).Name()
+		}
+		return r, p + "." + name
+	case *ssa.UnOp:
+		if x.Op == token.MUL {
+			if _, isAlloc := x.X.(*ssa.Alloc); !isAlloc {
+				r, p := accessPath(x.X)
+				return r, p + "*"
+			}
+		}
+	case *ssa.IndexAddr:
+		if k, ok := constInt(x.Index); ok {
+			r, p := accessPath(x.X)
+			return r, fmt.Sprintf("%s[%d]", p, k)
+		}
+	case *ssa.ChangeType:
+		return accessPath(x.X)
+	}
+	return addr, ""
+}
+
+// forwardedStore: for a load from address A, if the enclosing function contains
+// exactly one store to the same access path (same root value, same selector
+// path), it dominates the load, and no store to an overlapping path (a prefix
+// or extension of it) can execute between that store and the load (CFG
+// reachability), return the stored value. Side effects of callees on the path are
+// covered separately by the who-may-write rules.
+func forwardedStore(load *ssa.UnOp, _ ssa.Value) ssa.Value {
+	root, path := accessPath(load.X)
+	if path == "" {
+		return nil
+	}
 	fn := load.Parent()
-	var stores []*ssa.Store
+	var same []*ssa.Store
+	var overlapping []*ssa.Store
 	for _, b := range fn.Blocks {
 		for _, in := range b.Instrs {
 			st, ok := in.(*ssa.Store)
 			if !ok {
 				continue
 			}
-			sfa, ok := st.Addr.(*ssa.FieldAddr)
-			if !ok || sfa.Field != fa.Field || !types.Identical(derefType(sfa.X.Type()), derefType(fa.X.Type())) {
+			r2, p2 := accessPath(st.Addr)
+			if r2 != root || p2 == "" {
 				continue
 			}
-			if sfa.X != base {
-				// store to the same field through another base value: may alias
-				return nil
+			if p2 == path {
+				same = append(same, st)
+			} else if strings.HasPrefix(path, p2) || strings.HasPrefix(p2, path) {
+				overlapping = append(overlapping, st)
 			}
-			stores = append(stores, st)
 		}
 	}
-	if len(stores) == 1 && instrDominates(stores[0], load) {
-		return stores[0].Val
+	if len(same) != 1 || !instrDominates(same[0], load) {
+		return nil
 	}
-	return nil
+	for _, o := range overlapping {
+		// an overlapping store matters only if it can execute between the store and the load
+		if instrReaches(same[0], o) && instrReaches(o, load) {
+			return nil
+		}
+	}
+	return same[0].Val
 }
 
 func (c *Ctx) inlineReturns(call *ssa.Call, idx int, depth int, os *originSet) bool {
@@ -672,4 +716,32 @@ func callArg(cc *ssa.CallCommon, i int) ssa.Value {
 		return args[i]
 	}
 	return nil
+}
+
+// ReachableFuncs returns the functions reachable from roots over the CHA call graph
+// (module functions only are expanded).
+func (c *Ctx) ReachableFuncs(roots ...*ssa.Function) map[*ssa.Function]bool {
+	cg := c.CG()
+	seen := map[*ssa.Function]bool{}
+	work := append([]*ssa.Function{}, roots...)
+	for len(work) > 0 {
+		f := work[len(work)-1]
+		work = work[:len(work)-1]
+		if f == nil || seen[f] {
+			continue
+		}
+		seen[f] = true
+		if !inModule(f) {
+			continue
+		}
+		for _, a := range f.AnonFuncs {
+			work = append(work, a)
+		}
+		if n := cg.Nodes[f]; n != nil {
+			for _, e := range n.Out {
+				work = append(work, e.Callee.Func)
+			}
+		}
+	}
+	return seen
 }
